@@ -728,18 +728,23 @@ def coq_eval_grouped(shards, tag):
     import os
     import re
     from concurrent.futures import ThreadPoolExecutor
+    import shutil
     from common import GEN, JOBS, _eval_shard
-    os.makedirs(GEN, exist_ok=True)
-    for f in os.listdir(GEN):
+    # one directory per process: concurrent runs of this check (another agent's scratch tree, a
+    # seed sweep) must not overwrite or delete each other's case files
+    gen = os.path.join(GEN, f"C10_{os.getpid()}")
+    os.makedirs(gen, exist_ok=True)
+    for f in os.listdir(gen):
         if f.startswith(f"C10_{tag}_"):
-            os.remove(os.path.join(GEN, f))
+            os.remove(os.path.join(gen, f))
     paths = []
     for k, (prelude, fn, ty, terms) in enumerate(shards):
-        path = os.path.join(GEN, f"C10_{tag}_{k}.v")
+        path = os.path.join(gen, f"C10_{tag}_{k}.v")
         with open(path, "w") as fh:
             fh.write(prelude + "\n")
             fh.write(f"Definition cases : list ({ty}) := [\n" + ";\n".join(terms) + "\n].\n")
-            fh.write(f"Definition result := Eval vm_compute in (failing (map {fn} cases)).\nPrint result.\n")
+            fh.write(f"Definition result := Eval vm_compute in (failing (map {fn} cases)).\n")
+            fh.write("Set Printing Width 1000000.\nPrint result.\n")
         paths.append(path)
     bad, logs = [], []
     with ThreadPoolExecutor(max_workers=JOBS) as ex:
@@ -751,11 +756,10 @@ def coq_eval_grouped(shards, tag):
             if not m:
                 logs.append(f"{path}: cannot parse\n{out[-2000:]}")
                 continue
-            for a, b in re.findall(r"\((\d+)%?n?a?t?,\s*(\d+)%?n?a?t?\)", m.group(1)):
+            for a, b in re.findall(r"\(\s*(\d+)%?n?a?t?,\s*(\d+)%?n?a?t?\s*\)", m.group(1)):
                 bad.append((k, int(a), int(b)))
-    for f in os.listdir(GEN):
-        if f.startswith(f"C10_{tag}_") and not f.endswith(".v"):
-            os.remove(os.path.join(GEN, f))
+    if not logs:
+        shutil.rmtree(gen, ignore_errors=True)
     return bad, logs
 
 
@@ -938,12 +942,12 @@ def gen_state(rng, fam, cname):
     return {"cls": cname, "attrs": st}
 
 
-def one_diff_pairs(fam, cname="Base", blank_alts=True, full=True):
+def one_diff_pairs(fam, cname="Base", blank_alts=True, full=True, max_blanks=None):
     """for each attribute position: the base state and a state that differs only there (another
     value; not assigned), and -- "missing equals only missing" -- a state where the attribute is not
     assigned (never set / set and deleted) against one where it holds None / a falsy value / a
-    sentinel (`blanks_for`).  blank_alts: also base value vs blank value; full=False: the
-    set-and-deleted variant only for the first blank."""
+    sentinel (`blanks_for`).  blank_alts: also base value vs blank value and pairs of blanks;
+    full=False: the set-and-deleted variant only for the first blank; max_blanks: only the first n."""
     alist = attrs_of(fam, cname)
     base = {}
     for a in alist:
@@ -958,7 +962,7 @@ def one_diff_pairs(fam, cname="Base", blank_alts=True, full=True):
             st = dict(base)
             st[a["name"]] = alt
             out.append(({"cls": cname, "attrs": dict(base)}, {"cls": cname, "attrs": st}, a["name"]))
-        for bi, blank in enumerate(blanks_for(a["kind"])):
+        for bi, blank in enumerate(blanks_for(a["kind"])[:max_blanks]):
             sb = dict(base)
             sb[a["name"]] = blank
             if not a.get("default"):
@@ -1245,11 +1249,14 @@ def generate(rng, tier):
                 fam["sub_attrs"] = [{"name": "b0", "kind": ("opt", "func", "str", "list")[(ci + cmp_last) % 4], "compare": True,
                                      "repr": True, "init": True, "default": False}]
             fid = add_family(fam)
-            for a, b, which in one_diff_pairs(fam, full=not quick):
+            # (thorough: the long kind tuples get the short form -- never set vs the first two blanks)
+            rich = not quick and len(kinds) <= 2
+            lean = dict(blank_alts=False, full=False, max_blanks=2) if not quick and len(kinds) > 2 else {}
+            for a, b, which in one_diff_pairs(fam, **(lean or dict(full=rich))):
                 cases.append({"kind": "eq", "fam": fid, "a": a, "b": b, "gen": "one-diff", "diff": which})
             if with_sub:
                 for cname in ("Sub", "Plain"):
-                    for a, b, which in one_diff_pairs(fam, cname, blank_alts=not quick, full=not quick):
+                    for a, b, which in one_diff_pairs(fam, cname, **(lean or dict(blank_alts=rich, full=rich))):
                         cases.append({"kind": "eq", "fam": fid, "a": a, "b": b, "gen": "one-diff-sub", "diff": which})
     return fams, cases
 
